@@ -18,7 +18,7 @@ def gen(rng, tier):
     per = 6 if tier == "quick" else 120
     for fmt, (curve, enc, dec, params) in T.items():
         for i in range(per):
-            kw = dict(params[i % len(params)])
+            kw = dict(params[0] if i == 0 else params[-1] if i == 1 else params[rng.randrange(len(params))])   # first, last, then random rows of the parameter space
             priv = rand_priv(rng, curve)
             forms = pub_forms(curve, priv)
             pub = forms[i % len(forms)]
@@ -60,6 +60,33 @@ def gen(rng, tier):
         picked.sort(key=lambda t: t[0])
         for _, pub, kw in picked[:4 if tier == "quick" else 40]:
             yield Case("addrenc", [fmt, hx(pub)] + kwfields(kw), "enc-outputdep")
+        if fmt == "nim":
+            import hashlib
+            from harness.props.c10 import _nim_checksum, NIM_ALPHABET
+            found = {}
+            for j in range(20000):
+                pub = pub_forms(curve, rand_priv(rng, curve))[0]
+                hsh = hashlib.blake2b(pub[1:], digest_size=32).digest()[:20]
+                v = int.from_bytes(hsh, "big")
+                body = "".join(NIM_ALPHABET[(v >> (5 * (31 - t))) & 31] for t in range(32))
+                ck = _nim_checksum(body)
+                cls_ = "98" if ck == "98" else "97" if ck == "97" else "0x" if ck < "10" else None
+                if cls_ and cls_ not in found:
+                    found[cls_] = pub
+                    yield Case("addrenc", [fmt, hx(pub)], "enc-nim-check-" + cls_)
+                if len(found) == 3:
+                    break
+        if fmt == "xlm":
+            import binascii
+            got = 0
+            for j in range(20000):
+                pub = pub_forms(curve, rand_priv(rng, curve))[0]
+                for ver in (6 << 3, 16 << 3):
+                    if binascii.crc_hqx(bytes([ver]) + pub[1:], 0) < 0x100:
+                        yield Case("addrenc", [fmt, hx(pub)] + kwfields(dict(params[0] if ver == 6 << 3 else params[-1])), "enc-xlm-crc-leading-zero")
+                        got += 1
+                if got >= 2:
+                    break
         # byte strings that are not valid keys
         for bad in (b"", b"\x02" + bytes(32), b"\x05" + bytes(32), bytes(33), b"\x02" + b"\xff" * 32, bytes(31), bytes(65), b"\x04" + bytes(64),
                     bytes(rng.randrange(256) for _ in range(33)), bytes(rng.randrange(256) for _ in range(32))):
